@@ -776,6 +776,21 @@ def exBi (o : Nat) : BeginInfo := ⟨0xe0, 0, 1, some (.error .fieldNotPresent),
 /-- the state after PAT and PMT have been processed -/
 def exState : R (Tab Handler × Ctx) := runApp { bypassCrc := true } [exPat ++ exPmt2]
 
+/-- the PMT again with `version_number = 1`: both streams are re-announced -/
+def exPmt2v1 : Bytes := pad [0x47, 0x40, 0x20, 0x11, 0x00,
+  0x02, 0xB0, 0x17, 0x00, 0x01, 0xC3, 0x00, 0x00, 0xE0, 0x21, 0xF0, 0x00,
+  0x1B, 0xE0, 0x21, 0xF0, 0x00, 0x0F, 0xE0, 0x22, 0xF0, 0x00, 0xDE, 0xAD, 0xBE, 0xEF]
+
+def exA3 : Bytes := mkTp true 0x21 3 none (pesHead ++ List.replicate 175 0x14)
+
+/-- hostile continuation of PID 0x21 after `exBuf`: a continuity jump (counter 9 after 2), a valid
+PES start, a unit start on garbage (no `00 00 01`), a stray continuation -/
+def exHostile : Bytes :=
+  mkTp false 0x21 9 none (List.replicate 184 0x31)
+  ++ mkTp true 0x21 10 none (pesHead ++ List.replicate 175 0x32)
+  ++ mkTp true 0x21 11 none (List.replicate 184 0x33)
+  ++ mkTp false 0x21 12 none (List.replicate 184 0x34)
+
 end data
 
 end Ts.Lemmas.Proj
